@@ -13,7 +13,10 @@ import traceback
 
 SETTINGS_FILES = {
     "entry.yaml": '- method_list: ["%unit_init"]\n',
-    "source.yaml": '- lang: python\n  rules:\n    - operation: call_stmt\n      name: source\n      tag: ["%target"]\n'
+    # parameters named alpha / beta / req are taint sources: call_stmt source rules never match on the pinned tree, a
+    # parameter_decl rule does, so that the taint phase finds flows and writes its report
+    "source.yaml": '- lang: python\n  rules:\n    - operation: parameter_decl\n      name: alpha\n    - operation: parameter_decl\n      name: beta\n'
+                   '    - operation: parameter_decl\n      name: req\n    - operation: call_stmt\n      name: source\n      tag: ["%target"]\n'
                    '- lang: javascript\n  rules:\n    - operation: call_stmt\n      name: source\n      tag: ["%target"]\n',
     "sink.yaml": '- lang: python\n  rules:\n    - operation: call_stmt\n      name: sink\n      target: [\\%arg0]\n      vuln_type: generic_sink\n'
                  '- lang: javascript\n  rules:\n    - operation: call_stmt\n      name: sink\n      target: [\\%arg0]\n      vuln_type: generic_sink\n',
